@@ -275,6 +275,59 @@ async fn lx_part(rep: &mut Report, thorough: bool) -> Result<(), String> {
             }
         }
     }
+    // ---- header blocks whose terminator straddles the front-end's read boundaries: every size in windows
+    //      around multiples of 1024, and a forced TCP cut 1..4 bytes before the end of an ordinary header
+    {
+        let mut shapes: Vec<(usize, Vec<usize>)> = vec![];
+        let windows: Vec<std::ops::RangeInclusive<usize>> = if thorough { vec![1018..=1032, 2042..=2056, 3066..=3080, 65_528..=65_536] } else { vec![1021..=1029, 2046..=2052, 65_533..=65_536] };
+        for w in windows {
+            for n in w {
+                shapes.push((n, vec![]));
+            }
+        }
+        for back in 1..=5usize {
+            shapes.push((300, vec![300 - back]));
+            shapes.push((1500, vec![1500 - back]));
+            shapes.push((1500, vec![700, 1500 - back]));
+        }
+        let mut hs = vec![];
+        for (total, cuts) in shapes {
+            let proxy2 = proxy;
+            hs.push(tokio::spawn(async move {
+                let origin = start_target("127.0.0.1", TargetMode::Sink, vec![]).await;
+                let first = format!("POST http://{}/s HTTP/1.1\r\nHost: {}\r\nContent-Length: 9\r\nX-Fill: ", origin.addr, origin.addr);
+                let fill = total.saturating_sub(first.len() + 4);
+                let mut req = first.into_bytes();
+                req.extend(std::iter::repeat(b'g').take(fill));
+                req.extend_from_slice(b"\r\n\r\n");
+                let hlen = req.len();
+                req.extend_from_slice(b"body\r\n\r\n!");
+                let (_resp, _) = http_exchange(proxy2, &req, &cuts, 80).await;
+                let got = origin.wait(0, 1500, |t| t.received.ends_with(b"body\r\n\r\n!")).await;
+                let name = format!("header block {hlen} bytes sent with cuts {:?}, body contains a blank line", cuts);
+                let verdict = match got {
+                    None => Some(("C17:legal-header-refused", format!("{name}: the origin was never contacted"))),
+                    Some(t) => {
+                        let want_tail = b"\r\n\r\nbody\r\n\r\n!";
+                        if !t.received.ends_with(want_tail) || !t.received.starts_with(b"POST /s HTTP/1.1\r\n") || t.received.len() + 60 < hlen {
+                            Some(("C17:forwarded-request-altered", format!("{name}: origin received {} bytes ending {:?}", t.received.len(), String::from_utf8_lossy(&t.received[t.received.len().saturating_sub(24)..]))))
+                        } else {
+                            None
+                        }
+                    }
+                };
+                (name, verdict)
+            }));
+        }
+        for h in hs {
+            if let Ok((name, verdict)) = h.await {
+                rep.case(Some(&name));
+                if let Some((k, d)) = verdict {
+                    rep.violation(k, &d, json!({"engine": "LX", "case": name}));
+                }
+            }
+        }
+    }
     // ---- CONNECT: 200 only after the tunnel exists; bytes sent with the CONNECT header reach the origin exactly once
     for early in [0usize, 1, 700] {
         for one_segment in [true, false] {
